@@ -128,25 +128,36 @@ func init() {
 				}
 			}
 			// alias chain shapes (fresh name; c22name also exists as an external)
-			type shape struct{ name, setup, want string }
+			type shape struct{ name, setup, want, call string }
 			shapes := []shape{
-				{"alias-to-alias", "alias c22name=c22other\nalias c22other=out second-alias\n", "notfound"}, // c22other is resolved without alias lookup: no such function/builtin/external
-				{"alias-to-alias-with-function", "alias c22name=c22other\nalias c22other=out second-alias\nfunction c22other { out function-other }\n", "function-other"},
-				{"alias-to-self-external", "alias c22name=c22name selfarg\n", "external selfarg"},
-				{"alias-to-self-function", "alias c22name=c22name selfarg\nfunction c22name { out \"function $1\" }\n", "function selfarg"},
-				{"alias-to-function", "alias c22name=c22fn\nfunction c22fn { out function-target }\n", "function-target"},
-				{"alias-to-builtin", "alias c22name=out builtin-target\n", "builtin-target"},
-				{"alias-to-private", "alias c22name=c22priv\nprivate c22priv { out private-target }\n", "private-target"},
-				{"alias-with-args", "alias c22name=out a b\n", "a b"},
-				{"two-step-alias-loop", "alias c22name=c22other\nalias c22other=c22name\n", "notfound"},
-				{"alias-to-false-builtin", "alias c22name=false\n", "false"},
-				{"function-shadowing-alias-target", "alias c22name=c22t\nalias c22t=out wrong\nfunction c22t { out right }\n", "right"},
-				{"alias-to-self-both-function-and-external", "alias c22name=c22name\nfunction c22name { out fn }\n", "fn"},
+				{"alias-to-alias", "alias c22name=c22other\nalias c22other=out second-alias\n", "notfound", ""}, // c22other is resolved without alias lookup: no such function/builtin/external
+				{"alias-to-alias-with-function", "alias c22name=c22other\nalias c22other=out second-alias\nfunction c22other { out function-other }\n", "function-other", ""},
+				{"alias-to-self-external", "alias c22name=c22name selfarg\n", "external selfarg", ""},
+				{"alias-to-self-function", "alias c22name=c22name selfarg\nfunction c22name { out \"function $1\" }\n", "function selfarg", ""},
+				{"alias-to-function", "alias c22name=c22fn\nfunction c22fn { out function-target }\n", "function-target", ""},
+				{"alias-to-builtin", "alias c22name=out builtin-target\n", "builtin-target", ""},
+				{"alias-to-private", "alias c22name=c22priv\nprivate c22priv { out private-target }\n", "private-target", ""},
+				{"alias-with-args", "alias c22name=out a b\n", "a b", ""},
+				{"two-step-alias-loop", "alias c22name=c22other\nalias c22other=c22name\n", "notfound", ""},
+				{"alias-to-false-builtin", "alias c22name=false\n", "false", ""},
+				{"function-shadowing-alias-target", "alias c22name=c22t\nalias c22t=out wrong\nfunction c22t { out right }\n", "right", ""},
+				{"alias-to-self-both-function-and-external", "alias c22name=c22name\nfunction c22name { out fn }\n", "fn", ""},
+				// a function defined again, with the very same text, by another module: the names in it
+				// resolve against the privates of the module that defined it last
+				{"function-redefined-identically-by-second-module", "source { private c22h { out first }; function c22fnr { c22h } }\nsource { private c22h { out second }; function c22fnr { c22h } }\n", "second", "c22fnr"},
+				{"function-redefined-identically-private-only-in-second-module", "source { function c22fnr { c22name } }\nsource { private c22name { out private-second }; function c22fnr { c22name } }\n", "private-second", "c22fnr"},
+				{"function-redefined-identically-private-only-in-first-module", "source { private c22name { out private-first }; function c22fnr { c22name } }\nsource { function c22fnr { c22name } }\n", "external", "c22fnr"},
+				{"function-redefined-identically-three-modules", "source { private c22h { out first }; function c22fnr { c22h } }\nsource { private c22h { out second }; function c22fnr { c22h } }\nsource { private c22h { out third }; function c22fnr { c22h } }\n", "third", "c22fnr"},
+				{"function-with-parameters-redefined-identically", "source { private c22h { out first }; function c22fnr (a: str) { c22h } }\nsource { private c22h { out second }; function c22fnr (a: str) { c22h } }\n", "second", "c22fnr x"},
 			}
 			for _, s := range shapes {
 				id++
-				b1 := "!alias c22name\n!alias c22other\n!alias c22t\n!function c22name\n!function c22other\n!function c22fn\n!function c22t\n" + s.setup + "out \"\x1eCALL\"\nc22name\n"
-				b2 := "out \"\x1eCALL\"\nout skip\nout \"\x1eEND\"\n!alias c22name\n!alias c22other\n!alias c22t\n!function c22name\n!function c22other\n!function c22fn\n!function c22t\n"
+				call := s.call
+				if call == "" {
+					call = "c22name"
+				}
+				b1 := "!alias c22name\n!alias c22other\n!alias c22t\n!function c22name\n!function c22other\n!function c22fn\n!function c22t\n!function c22fnr\n" + s.setup + "out \"\x1eCALL\"\n" + call + "\n"
+				b2 := "out \"\x1eCALL\"\nout skip\nout \"\x1eEND\"\n!alias c22name\n!alias c22other\n!alias c22t\n!function c22name\n!function c22other\n!function c22fn\n!function c22t\n!function c22fnr\n"
 				e := c22Expect{Name: "c22name", Defs: []string{s.name}, Inside: s.want, Outside: "skip", Shape: s.name, NT: true}
 				exp, _ := json.Marshal(e)
 				cases = append(cases, &proto.Case{ID: fmt.Sprintf("c22-%d", id), Op: "prog", Blocks: []string{b1, b2}, Events: true, Expect: exp, TimeoutMs: 30000})
